@@ -105,8 +105,18 @@ impl NotificationEventHandle {
     }
 
     /// Notification stream closed.
-    pub(crate) async fn report_notification_stream_closed(&self, peer: PeerId) {
-        let _ = self.tx.send(InnerNotificationEvent::NotificationStreamClosed { peer }).await;
+    ///
+    /// `stream_id` identifies the closed stream when reported by its connection handler; `None`
+    /// stands for the stream that is currently open to `peer`.
+    pub(crate) async fn report_notification_stream_closed(
+        &self,
+        peer: PeerId,
+        stream_id: Option<usize>,
+    ) {
+        let _ = self
+            .tx
+            .send(InnerNotificationEvent::NotificationStreamClosed { peer, stream_id })
+            .await;
     }
 
     /// Failed to open notification stream.
@@ -548,7 +558,19 @@ impl Stream for NotificationHandle {
                             handshake,
                         }));
                     }
-                    InnerNotificationEvent::NotificationStreamClosed { peer } => {
+                    InnerNotificationEvent::NotificationStreamClosed { peer, stream_id } => {
+                        // the connection handler of a stream that `NotificationProtocol` has
+                        // already reported closed reports it once more when it is done: such a
+                        // report concerns neither a later stream to `peer` nor the user
+                        let current = match (self.peers.get(&peer), stream_id) {
+                            (Some(sink), Some(stream_id)) => sink.stream_id() == stream_id,
+                            (Some(_), None) => true,
+                            (None, _) => false,
+                        };
+                        if !current {
+                            continue;
+                        }
+
                         self.peers.remove(&peer);
                         self.clogged.remove(&peer);
 
